@@ -154,6 +154,8 @@ def random_forms(rng, n):
             continue            # degenerate alternatives (bash's own answers are inconsistent); `/` and `}` would end the operand
         if "!(" in p:
             continue            # open finding C08-F2 (negated group in context)
+        if "-[:" in p:
+            continue            # a class as a range endpoint is unspecified
         val = "".join(rng.choice(RAND_ALPHA) for _ in range(rng.randint(0, 6))).replace("\\n", "\n")
         if "[:" in p and any(ord(ch) > 127 for ch in val):
             continue            # open finding C08-F1 (POSIX classes are ASCII-only)
@@ -227,6 +229,70 @@ def definitional_want(c):
         if op in ("#", "##"):
             return gen_pat.remove_prefix(val, pat, op == "##", bool(c["meta"].get("ext")))
         return gen_pat.remove_suffix(val, pat, op == "%%", bool(c["meta"].get("ext")))
+    except Exception:
+        return None
+
+
+class _Amb(Exception):
+    pass
+
+
+def definitional_replace(val, pat, rep, form, ext):
+    """${v/p/r} by the definition: leftmost position, longest match there; /# longest prefix, /% longest suffix, // repeated.
+    Raises _Amb where bash's treatment of empty matches is its own business (open finding C06-F8 covers brush's)."""
+    m = lambda t: gen_pat.matches(pat, t, ext)
+    n = len(val)
+    if val == "":
+        raise _Amb()
+    if form == "/#":
+        for k in range(n, -1, -1):
+            if m(val[:k]):
+                return rep + val[k:]
+        return val
+    if form == "/%":
+        for k in range(0, n + 1):
+            if m(val[k:]):
+                return val[:k] + rep
+        return val
+    if form == "/":
+        for i in range(0, n + 1):
+            for j in range(n, i - 1, -1):
+                if m(val[i:j]):
+                    if j == i:
+                        raise _Amb()
+                    return val[:i] + rep + val[j:]
+        return val
+    out, i = "", 0
+    while i < n:
+        hit = None
+        for j in range(n, i - 1, -1):
+            if m(val[i:j]):
+                hit = j
+                break
+        if hit is None:
+            out += val[i]
+            i += 1
+        elif hit == i:
+            raise _Amb()
+        else:
+            out += rep
+            i = hit
+    return out
+
+
+def replace_want(c):
+    """(want | None) for random replacement cases: literal replacement text only."""
+    if not (c["tag"].startswith("replace") and c["meta"].get("rand")):
+        return None
+    form = c["tag"][len("replace"):]
+    body = c["word"][len("${v" + form):-1]
+    if "/" not in body:
+        return None
+    pat, rep = body.split("/", 1)
+    if "[[:" in pat:
+        return None
+    try:
+        return definitional_replace(c["meta"]["val"], pat, rep, form, bool(c["meta"].get("ext")))
     except Exception:
         return None
 
@@ -306,6 +372,8 @@ def run(run):
 
     def on_diff(c, b, h, ck, stderr):
         want = definitional_want(c)
+        if want is None:
+            want = replace_want(c)
         if not ck and want is not None and quoted_value(b) == want and quoted_value(h) is not None and quoted_value(h) != want:
             # bash itself departs from the definition here (shortest/longest matching prefix/suffix by the reference matcher) and
             # brush returns the definitional answer: the references disagree, not judged
